@@ -12,9 +12,9 @@
    Conventions.  The D-Bus deserializer works on sub-slices (`bytes.slice(12..)`, `subslice(bytes, value_start..)`) that
    all extend to the END of the message, and computes alignment from `ctxt.position() + pos`; the model therefore uses
    one ABSOLUTE position into the whole message: every bounds check `pos + n > bytes.len()` and every alignment is the
-   same number in both.  A Rust panic is the value [Panic].  The value of a header field whose variant signature is not
-   one of `s o g u` is decoded by zvariant's general `Value` decoder and then always rejected by the `TryFrom<Value>`
-   conversion of FieldsVisitor; the model returns [Err] at once (assumed contract: that decoder returns, C04). *)
+   same number in both.  A Rust panic is the value [Panic].  Header-field values of any type are decoded ([de_value]:
+   extent and success of zvariant's dynamically typed decoder); values other than `s o g u` are then skipped (unknown
+   field code) or refused by the `TryFrom<Value>` conversion of FieldsVisitor (known code). *)
 From ZV Require Import Base.Bytes Base.Res Base.Sig C10.Model.
 Open Scope N_scope.
 
@@ -179,7 +179,126 @@ Inductive fval :=
 | FStr (s : bytes) (start : N)       (* Value::Str, borrowed from the message at [start] *)
 | FPath (s : bytes) (start : N)      (* Value::ObjectPath (validated by ObjectPath::try_from; fix c60ac51c) *)
 | FSig (g : sig)                     (* Value::Signature *)
-| FU32 (n : N).                      (* Value::U32 *)
+| FU32 (n : N)                       (* Value::U32 *)
+| FOther.                            (* any other Value (only its extent matters: it is skipped or refused) *)
+
+(* ---------- zvariant's general decoder of a dynamically typed value (ValueSeed over dbus::Deserializer), as far as its
+   extent and success go.  Needed since fix 9e1c6e56: a header field with an unknown code is decoded as (u8, Value) and then
+   skipped, so its value may have any type. ---------- *)
+Record depths := { d_struct : N; d_array : N; d_variant : N }.
+(* ContainerDepths::check: 32 structures, 32 arrays, 64 in total *)
+Definition depth_check (d : depths) : R depths :=
+  if 32 <? d_struct d then Err EData
+  else if 32 <? d_array d then Err EData
+  else if 64 <? d_struct d + d_array d + d_variant d then Err EData
+  else Ok d.
+Definition inc_struct (d : depths) : R depths :=
+  depth_check {| d_struct := d_struct d + 1; d_array := d_array d; d_variant := d_variant d |}.
+Definition inc_array (d : depths) : R depths :=
+  depth_check {| d_struct := d_struct d; d_array := d_array d + 1; d_variant := d_variant d |}.
+Definition inc_variant (d : depths) : R depths :=
+  depth_check {| d_struct := d_struct d; d_array := d_array d; d_variant := d_variant d + 1 |}.
+
+(* next_const_size_slice::<T> for a fixed-size basic type: size = alignment *)
+Definition de_fixed (b : bytes) (pos a : N) : R N :=
+  let* p := parse_padding b pos a in
+  let* (_, p') := next_slice b p a in
+  Ok p'.
+
+(* ValueDeserializer, both stages up to the start of the value: the signature (a `g` string, one complete type),
+   read a second time from the buffer in stage Value (bytes[sig_start] can panic in principle) *)
+Definition variant_sig (e : endian) (b : bytes) (pos : N) : R (sig * N) :=
+  let* (sg, _, p1) := de_str false e b pos in
+  match parse_sig sg with
+  | None => Err EData
+  | Some _ =>
+      match nth_error b (N.to_nat pos) with
+      | None => Panic PIndex
+      | Some lb =>
+          let sig_len := bn lb in
+          let sig_end := pos + 1 + sig_len in
+          let value_start := sig_end + 1 in
+          if len b <? sig_end then Err EData
+          else
+            match parse_sig (takeN sig_len (dropN (pos + 1) b)) with
+            | None => Err EData
+            | Some vs =>
+                if (match vs with SUnit => true | _ => false end) || negb (len (show vs) =? sig_len) then Err EData
+                else if len b <? value_start then Err EData
+                else Ok (vs, value_start)
+            end
+      end
+  end.
+
+(* [vf] bounds the nesting of variants (each level increments the variant depth, limited to 64 in total: Proofs show the
+   bound is never reached); arrays iterate at most once per byte (every element has at least one byte).
+   File descriptors: Message::from_bytes is given a Data without descriptors, every index is unknown (Error::UnknownFd). *)
+Fixpoint de_value (vf : nat) : sig -> depths -> endian -> bytes -> N -> R N :=
+  fix on_sig (s : sig) (d : depths) (e : endian) (b : bytes) (pos : N) {struct s} : R N :=
+    match s with
+    | SUnit | SMaybe _ => Err EData
+    | SU8 => let* (_, p) := next_slice b pos 1 in Ok p
+    | SBool => let* (n, p) := de_u32 e b pos in if n <=? 1 then Ok p else Err EData
+    | SI16 | SU16 => de_fixed b pos 2
+    | SI32 | SU32 => de_fixed b pos 4
+    | SI64 | SU64 | SF64 => de_fixed b pos 8
+    | SStr => let* (_, _, p) := de_str true e b pos in Ok p
+    | SObjPath => let* (s', _, p) := de_str true e b pos in if validate_object_path s' then Ok p else Err EData
+    | SSig => let* (s', _, p) := de_str false e b pos in match parse_sig s' with Some _ => Ok p | None => Err EData end
+    | SFd => let* (_, _) := de_u32 e b pos in Err EData
+    | SArray c =>
+        (* deserialize_seq + ArrayDeserializer::new: padding, depth, byte length, padding of the first element (even if none) *)
+        let* p0 := parse_padding b pos 4 in
+        let* d' := inc_array d in
+        let* (n, p1) := de_u32 e b p0 in
+        let* start := parse_padding b p1 (align_dbus c) in
+        let endp := start + n in
+        (fix loop (k : nat) (q : N) {struct k} : R N :=
+           if q =? endp then Ok q
+           else match k with
+                | O => Err EFuel
+                | S k' =>
+                    let* q1 := parse_padding b q (align_dbus c) in
+                    let* q2 := on_sig c d' e b q1 in
+                    if endp <? q2 then Err EData else loop k' q2
+                end) (S (length b)) start
+    | SDict kt vt =>
+        let* p0 := parse_padding b pos 4 in
+        let* d' := inc_array d in
+        let* (n, p1) := de_u32 e b p0 in
+        let* start := parse_padding b p1 8 in
+        let endp := start + n in
+        (fix loop (k : nat) (q : N) {struct k} : R N :=
+           if q =? endp then Ok q
+           else match k with
+                | O => Err EFuel
+                | S k' =>
+                    let* q1 := parse_padding b q 8 in
+                    let* q2 := on_sig kt d' e b q1 in
+                    if endp <? q2 then Err EData
+                    else
+                      let* q3 := on_sig vt d' e b q2 in
+                      if endp <? q3 then Err EData else loop k' q3
+                end) (S (length b)) start
+    | SStruct fs =>
+        let* p0 := parse_padding b pos 8 in
+        let* d' := inc_struct d in
+        (fix go (l : list sig) (q : N) {struct l} : R N :=
+           match l with
+           | [] => Ok q
+           | f :: r => let* q' := on_sig f d' e b q in go r q'
+           end) fs p0
+    | SVariant =>
+        let* (vs, vstart) := variant_sig e b pos in
+        let* d' := inc_variant d in
+        match vf with
+        | O => Err EFuel
+        | S vf' => de_value vf' vs d' e b vstart
+        end
+    end.
+
+(* the value of a header field sits in an array (a(yv)), a structure and a variant: depths 1, 1, 1 — always within the limits *)
+Definition field_value_depths : depths := {| d_struct := 1; d_array := 1; d_variant := 1 |}.
 
 (* Value::deserialize inside a (yv) struct: ValueDeserializer stages Signature and Value *)
 Definition de_variant (e : endian) (b : bytes) (pos : N) : R (fval * N) :=
@@ -214,20 +333,19 @@ Definition de_variant (e : endian) (b : bytes) (pos : N) : R (fval * N) :=
                       let* (s, _, p2) := de_str false e b value_start in
                       match parse_sig s with Some g => Ok (FSig g, p2) | None => Err EData end
                   | SU32 => let* (n, p2) := de_u32 e b value_start in Ok (FU32 n, p2)
-                  | _ => Err EData      (* any other Value: decoded by the general decoder, then refused by TryFrom<Value> *)
+                  | _ => let* p2 := de_value 64 vs field_value_depths e b value_start in Ok (FOther, p2)   (* any other Value *)
                   end
             end
       end
   end.
 
-(* one element `(yv)` of the fields array: next_element pads to 8 (as do deserialize_seq and StructureDeserializer::new:
-   three identical calls in a row, idempotent), FieldCode is a Deserialize_repr enum 1..=9 *)
+(* one element `(yv)` of the fields array, read as (u8, Value) (fix 9e1c6e56): next_element pads to 8 (as do
+   deserialize_seq and StructureDeserializer::new: three identical calls in a row, idempotent) *)
 Definition de_field (e : endian) (b : bytes) (pos : N) : R (N * fval * N) :=
   let* p := parse_padding b pos 8 in
   let* (code, p1) := de_u8 b p in
-  if (1 <=? code) && (code <=? 9) then
-    let* (v, p2) := de_variant e b p1 in Ok (code, v, p2)
-  else Err EData.
+  let* (v, p2) := de_variant e b p1 in
+  Ok (code, v, p2).
 
 (* message::Fields: string-like fields keep the offset of their bytes for QuickFields *)
 Record fields := {
@@ -239,19 +357,20 @@ Definition fields_empty : fields :=
      f_sender := None; f_sig := SUnit; f_fds := None |}.
 
 (* FieldsVisitor::visit_seq: `match code { ... X::try_from(value) ... }`.  InterfaceName, MemberName, ErrorName and
-   UniqueName convert through #[derive(Value)] (no validation); ObjectPath was validated by the Value decoder; BusName validates. *)
+   UniqueName convert through zvariant::Str, whose TryFrom validates (fix b3fdf920); ObjectPath was validated by the
+   Value decoder; BusName validates. *)
 Definition set_field (fs : fields) (code : N) (v : fval) : R fields :=
   match code, v with
   | 1, FPath s st => Ok {| f_path := Some (s, st); f_iface := f_iface fs; f_member := f_member fs; f_errname := f_errname fs; f_reply := f_reply fs; f_dest := f_dest fs; f_sender := f_sender fs; f_sig := f_sig fs; f_fds := f_fds fs |}
-  | 2, FStr s st => Ok {| f_path := f_path fs; f_iface := Some (s, st); f_member := f_member fs; f_errname := f_errname fs; f_reply := f_reply fs; f_dest := f_dest fs; f_sender := f_sender fs; f_sig := f_sig fs; f_fds := f_fds fs |}
-  | 3, FStr s st => Ok {| f_path := f_path fs; f_iface := f_iface fs; f_member := Some (s, st); f_errname := f_errname fs; f_reply := f_reply fs; f_dest := f_dest fs; f_sender := f_sender fs; f_sig := f_sig fs; f_fds := f_fds fs |}
-  | 4, FStr s st => Ok {| f_path := f_path fs; f_iface := f_iface fs; f_member := f_member fs; f_errname := Some (s, st); f_reply := f_reply fs; f_dest := f_dest fs; f_sender := f_sender fs; f_sig := f_sig fs; f_fds := f_fds fs |}
+  | 2, FStr s st => if negb (validate_interface s) then Err EData else Ok {| f_path := f_path fs; f_iface := Some (s, st); f_member := f_member fs; f_errname := f_errname fs; f_reply := f_reply fs; f_dest := f_dest fs; f_sender := f_sender fs; f_sig := f_sig fs; f_fds := f_fds fs |}
+  | 3, FStr s st => if negb (validate_member s) then Err EData else Ok {| f_path := f_path fs; f_iface := f_iface fs; f_member := Some (s, st); f_errname := f_errname fs; f_reply := f_reply fs; f_dest := f_dest fs; f_sender := f_sender fs; f_sig := f_sig fs; f_fds := f_fds fs |}
+  | 4, FStr s st => if negb (validate_error s) then Err EData else Ok {| f_path := f_path fs; f_iface := f_iface fs; f_member := f_member fs; f_errname := Some (s, st); f_reply := f_reply fs; f_dest := f_dest fs; f_sender := f_sender fs; f_sig := f_sig fs; f_fds := f_fds fs |}
   | 5, FU32 n => if n =? 0 then Err EData
                  else Ok {| f_path := f_path fs; f_iface := f_iface fs; f_member := f_member fs; f_errname := f_errname fs; f_reply := Some n; f_dest := f_dest fs; f_sender := f_sender fs; f_sig := f_sig fs; f_fds := f_fds fs |}
   | 6, FStr s st => if validate_bus s
                     then Ok {| f_path := f_path fs; f_iface := f_iface fs; f_member := f_member fs; f_errname := f_errname fs; f_reply := f_reply fs; f_dest := Some (s, st); f_sender := f_sender fs; f_sig := f_sig fs; f_fds := f_fds fs |}
                     else Err EData
-  | 7, FStr s st => Ok {| f_path := f_path fs; f_iface := f_iface fs; f_member := f_member fs; f_errname := f_errname fs; f_reply := f_reply fs; f_dest := f_dest fs; f_sender := Some (s, st); f_sig := f_sig fs; f_fds := f_fds fs |}
+  | 7, FStr s st => if negb (validate_unique s) then Err EData else Ok {| f_path := f_path fs; f_iface := f_iface fs; f_member := f_member fs; f_errname := f_errname fs; f_reply := f_reply fs; f_dest := f_dest fs; f_sender := Some (s, st); f_sig := f_sig fs; f_fds := f_fds fs |}
   | 8, FSig g => Ok {| f_path := f_path fs; f_iface := f_iface fs; f_member := f_member fs; f_errname := f_errname fs; f_reply := f_reply fs; f_dest := f_dest fs; f_sender := f_sender fs; f_sig := g; f_fds := f_fds fs |}
   | 9, FU32 n => Ok {| f_path := f_path fs; f_iface := f_iface fs; f_member := f_member fs; f_errname := f_errname fs; f_reply := f_reply fs; f_dest := f_dest fs; f_sender := f_sender fs; f_sig := f_sig fs; f_fds := Some n |}
   | _, _ => Err EData
@@ -267,6 +386,8 @@ Fixpoint de_fields_loop (fuel : nat) (e : endian) (b : bytes) (endp pos : N) (fs
     | S f =>
         let* (code, v, p') := de_field e b pos in
         if endp <? p' then Err EData            (* pos > start + len: invalid_length *)
+        else if code =? 0 then Err EData        (* "invalid header field code 0" *)
+        else if 9 <? code then de_fields_loop f e b endp p' fs     (* unknown header field: ignored *)
         else
           let* fs' := set_field fs code v in
           de_fields_loop f e b endp p' fs'
@@ -290,14 +411,12 @@ Definition de_primary (e : endian) (b : bytes) : R (phdr * N) :=
       let* (ty, p2) := de_u8 b p1 in
       if negb ((1 <=? ty) && (ty <=? 4)) then Err EData             (* Type: Deserialize_repr *)
       else
-        let* (fl, p3) := de_u8 b p2 in
-        if negb (fl <=? 7) then Err EData                            (* BitFlags<Flags>::from_bits *)
-        else
-          let* (ver, p4) := de_u8 b p3 in
-          let* (bl, p5) := de_u32 e b p4 in
-          let* (sn, p6) := de_u32 e b p5 in
-          if sn =? 0 then Err EData                                  (* NonZeroU32 *)
-          else Ok ({| ph_endian := es; ph_type := ty; ph_flags := fl; ph_version := ver; ph_body_len := bl; ph_serial := sn |}, p6)
+        let* (fl, p3) := de_u8 b p2 in                               (* BitFlags::from_bits_truncate (fix 0d33c3d1): known bits kept *)
+        let* (ver, p4) := de_u8 b p3 in
+        let* (bl, p5) := de_u32 e b p4 in
+        let* (sn, p6) := de_u32 e b p5 in
+        if sn =? 0 then Err EData                                    (* NonZeroU32 *)
+        else Ok ({| ph_endian := es; ph_type := ty; ph_flags := fl mod 8; ph_version := ver; ph_body_len := bl; ph_serial := sn |}, p6)
   end.
 
 (* ---------- FieldPos / QuickFields ---------- *)
@@ -337,7 +456,7 @@ Definition data_slice (b : bytes) (start : N) : R bytes :=
 
 Definition from_raw_parts (ctx : endian) (b : bytes) : R msg :=
   match b with
-  | [] => Panic PIndex                                             (* bytes[0] *)
+  | [] => Err EData                                                (* bytes.first().ok_or(OutOfBounds) (fix e5b4d5a2) *)
   | b0 :: _ =>
       match endian_of_byte b0 with
       | None => Err EIncorrectEndian
@@ -355,7 +474,8 @@ Definition from_raw_parts (ctx : endian) (b : bytes) : R msg :=
               let* (fs, _) := de_fields ctx b in
               let header_len := 16 + fields_len in
               let body_offset := header_len + padding header_len 8 in
-              Ok {| m_ph := ph; m_qf := quick_fields b fs; m_bytes := b; m_body_offset := body_offset |}
+              if len b <? body_offset then Err EData                 (* body_offset > bytes.len() (fix e5b4d5a2) *)
+              else Ok {| m_ph := ph; m_qf := quick_fields b fs; m_bytes := b; m_body_offset := body_offset |}
       end
   end.
 
